@@ -35,10 +35,11 @@ Section Codec.
     (forall k l, In (k, l) (f_leaves f) -> leaf_ok l) /\
     (forall k n, In (k, n) (f_interm f) -> dof_ok (an_df n)).
 
-  (* ---------- what a JSON round trip changes: the complex pair becomes a list ---------- *)
+  (* ---------- what a JSON round trip changes: nothing but the Python class of a complex pair,
+     which the reader always makes a tuple (the pairs of live leaves are tuples already) ---------- *)
   Definition json_leaf (l : aleaf) : aleaf :=
     mkAL (al_label l) (al_u l) (al_df l) (al_indep l)
-         (match al_cplx l with Some (_, a, b) => Some (CList, a, b) | None => None end)
+         (match al_cplx l with Some (_, a, b) => Some (CTuple, a, b) | None => None end)
          (al_corr l) (al_ens l).
 
   Definition json_image (f : frozen) : frozen :=
@@ -131,7 +132,7 @@ Section Codec.
     - intros x _. cbn. rewrite H. reflexivity.
   Qed.
 
-  (* JSON: decode (encode f) = f with every complex pair turned into a list *)
+  (* JSON: decode (encode f) = f with every complex pair a tuple *)
   Theorem json_roundtrip (f : frozen) :
     frozen_ok f -> json_decode N (json_encode N f) = Ok (json_image f).
   Proof.
@@ -150,6 +151,31 @@ Section Codec.
     rewrite (d_tagged_ok _ _ _ d_fcomplex_ok). cbn -[d_tagged d_freal d_fcomplex freal_to_json fcomplex_to_json].
     rewrite (d_tagged_ok _ _ _ d_freal_ok). reflexivity.
   Qed.
+
+  (* archives whose complex pairs are tuples -- every archive frozen from a session (see
+     freeze_tuples in ArchiveRestore.v) -- come back from JSON EXACTLY *)
+  Definition cplx_tuple (l : aleaf) : Prop :=
+    match al_cplx l with Some (r, _, _) => r = CTuple | None => True end.
+  Definition tuples (f : frozen) : Prop := forall k l, In (k, l) (f_leaves f) -> cplx_tuple l.
+
+  Lemma json_leaf_id l : cplx_tuple l -> json_leaf l = l.
+  Proof.
+    destruct l as [lb u df ind cp co en]. unfold cplx_tuple, json_leaf. simpl.
+    destruct cp as [[[r a] b]|]; [intros ->|]; reflexivity.
+  Qed.
+
+  Lemma json_image_id f : tuples f -> json_image f = f.
+  Proof.
+    intros H. destruct f as [lv it tr tc ur]. unfold json_image. cbn [f_leaves f_interm f_treal f_tcplx f_ureal] in *.
+    f_equal. unfold tuples in H. cbn [f_leaves] in H.
+    induction lv as [|[k l] lv IH]; [reflexivity|]. cbn [map fst snd].
+    rewrite (json_leaf_id l (H k l (or_introl eq_refl))). f_equal. apply IH.
+    intros k' l' Hin. apply (H k' l'). now right.
+  Qed.
+
+  Theorem json_roundtrip_exact (f : frozen) :
+    frozen_ok f -> tuples f -> json_decode N (json_encode N f) = Ok f.
+  Proof. intros Hok Ht. rewrite (json_roundtrip f Hok). now rewrite json_image_id. Qed.
 
   (* ---------- XML ---------- *)
   (* what an XML round trip changes: an empty label becomes None; the complex pair is a tuple;
